@@ -5,6 +5,7 @@ formulas that are graph based.
 """
 
 import os
+import sys
 import io
 import random
 from io import StringIO
@@ -1638,7 +1639,14 @@ def bipartite_random_left_regular(l, r, d, seed=None):
 
     L, R = G.parts()
     for u in L:
-        for v in sorted(random.sample(R, d)):
+        if r <= sys.maxsize:
+            neighbours = random.sample(R, d)
+        else:
+            # random.sample refuses such a long range
+            neighbours = set()
+            while len(neighbours) < d:
+                neighbours.add(random.randint(1, r))
+        for v in sorted(neighbours):
             G.add_edge(u, v)
 
     return G
